@@ -71,6 +71,16 @@ def sub_ws2d(case, info=None):
     y = [float(v) for v in case["y"]]
     w = [float(v) for v in case["w"]]
     lam = float(10.0 ** case["loglam"]) if "loglam" in case else float(case["lam"])
+    # lambda may reach the core as any real scalar type; the value is what counts
+    lamtype = case.get("lamtype", "float")
+    if lamtype in ("int", "npint"):
+        lam = float(max(1, round(lam)))
+        lam_arg = int(lam) if lamtype == "int" else np.int64(int(lam))
+    elif lamtype == "f32":
+        lam_arg = np.float32(lam)
+        lam = float(lam_arg)
+    else:
+        lam_arg = lam
     n = len(y)
     ye = np.array([F(v) for v in y], dtype=object)
     we = np.array([F(v) for v in w], dtype=object)
@@ -83,7 +93,7 @@ def sub_ws2d(case, info=None):
             "(n=%d, lam=%r, w=%s): %s vs %s" % (i, n, lam, fmt(w), float(ze[i]), float(zd[i])), "exact identity")
     # oracle 2: float64
     yf, wf = np.array(y), np.array(w)
-    zf = call("ws2d", ws2d, yf, lam, wf)
+    zf = call("ws2d", ws2d, yf, lam_arg, wf)
     req(zf.shape == (n,), "ws2d returns shape %s" % (zf.shape,), "ws2d shape")
     zf = np.asarray(zf, dtype=np.float64)
     req(bool(np.isfinite(zf).all()), "ws2d returned non-finite values for n=%d lam=%r w=%s" % (n, lam, fmt(w)), "non-finite")
@@ -111,14 +121,30 @@ _DYADIC = st.builds(lambda m, e: m / 2.0 ** e, st.integers(-10000 * 64, 10000 * 
 
 @st.composite
 def cases(draw, nmax):
-    n = draw(st.one_of(st.integers(4, 7), st.integers(4, 7), st.integers(8, 30), st.integers(8, nmax)))
+    # exact rational arithmetic costs ~n^2 bit operations per cell: the long tail gets a tenth of the draws
+    n = draw(st.one_of(st.integers(4, 7), st.integers(4, 7), st.integers(4, 7), st.integers(8, 30), st.integers(8, 30),
+                       st.integers(8, 30), st.integers(8, min(nmax, 120)), st.integers(8, min(nmax, 120)),
+                       st.integers(8, min(nmax, 120)), st.integers(8, nmax)))
     if draw(st.integers(0, 5)) == 0:
         y = draw(st.lists(_DYADIC, min_size=n, max_size=n))
         ycls = "dyadic"
     else:
         s = draw(gens.series(n=n))
         y, ycls = s["y"], s["cls"]
-    g = draw(gens.gap_mask(n, min_valid=2))
+    loglam = None
+    if n >= 12 and draw(st.integers(0, 7)) == 0:
+        # interpolation regime: one long zero-weight run at an end (or inside) with a small lambda - the last pivots of the
+        # factorisation become as small as ~3 lambda / L^3
+        run = draw(st.integers(n // 2, n - 3))
+        where = draw(st.sampled_from(["trailing", "trailing", "leading", "interior"]))
+        a = {"trailing": n - run, "leading": 0}.get(where, draw(st.integers(1, n - run - 1)) if n - run - 1 >= 1 else 1)
+        valid = [not (a <= i < a + run) for i in range(n)]
+        if sum(valid) < 2:
+            valid[0] = valid[1] = True
+        g = {"gcls": "long_" + where, "valid": valid}
+        loglam = draw(st.floats(-6.0, -3.0))
+    else:
+        g = draw(gens.gap_mask(n, min_valid=2))
     w = [1.0 if v else 0.0 for v in g["valid"]]
     wcls = g["gcls"]
     if draw(st.integers(0, 3)) == 0:
@@ -126,8 +152,13 @@ def cases(draw, nmax):
         fr = draw(st.lists(st.sampled_from([0.1, 0.5, 0.9, p, 1 - p, 1.0]), min_size=n, max_size=n))
         w = [a * b for a, b in zip(w, fr)]
         wcls += "+frac"
-    loglam = draw(gens.loglam(-6.0, 8.0))
-    return {"y": y, "w": w, "loglam": loglam, "ycls": ycls, "wcls": wcls}
+    if loglam is None:
+        loglam = draw(gens.loglam(-6.0, 8.0))
+    case = {"y": y, "w": w, "loglam": loglam, "ycls": ycls, "wcls": wcls}
+    lamtype = draw(st.sampled_from(["float"] * 5 + ["int", "npint", "f32"]))
+    if lamtype != "float":
+        case["lamtype"] = lamtype
+    return case
 
 
 def run(ctx):
@@ -138,8 +169,10 @@ def run(ctx):
         info = {}
         w = case["w"]
         lam = 10.0 ** case["loglam"]
+        if case.get("lamtype") in ("int", "npint"):
+            lam = float(max(1, round(lam)))
         nontrivial = any(v != 1.0 for v in w) or len(w) <= 6 or not (1e-2 <= lam <= 1e3)
-        ctx.rec.case("ws2d", case, nontrivial=nontrivial, cls=["w:" + case["wcls"], "y:" + case["ycls"],
+        ctx.rec.case("ws2d", case, nontrivial=nontrivial, cls=["w:" + case["wcls"], "y:" + case["ycls"], "lam:" + case.get("lamtype", "float"),
                                                                "n<=7" if len(w) <= 7 else "n>7"])
         sub_ws2d(case, info)
         k = info["kappa"]
@@ -151,4 +184,4 @@ def run(ctx):
         if not ctx.quick:
             target(min(r, 1e6), label="err/(kappa u)")
 
-    ctx.given("ws2d", cases(ctx.n(120, 400)), ctx.n(500, 6000), fn=f)
+    ctx.given("ws2d", cases(ctx.n(120, 400)), ctx.n(500, 5000), fn=f)
